@@ -272,3 +272,318 @@ prop("C18",
      level_note="Assumes the correspondence streams reach every behaviour of the two 15-line parsers (they are exhaustive "
                 "around both fixed segments); the proof itself has no axioms.",
      technique="Coq proof over all byte strings (Names.v/NamesP.v) + differential correspondence of the parser and of echoed names")
+
+
+# ================================================================= more engines
+
+THEOREMS = json.load(open(os.path.join(ROOT, "lib", "theorems.json")))
+DATA_OPS = {"PUB", "PUBN", "PULL", "ACK", "MOD", "STATS", "SR", "SO", "SS"}
+CTL_OPS = {"CT", "GT", "DT", "CS", "GS", "DS", "LT", "LS", "LTS", "REG"}
+
+
+def seeded(cases):
+    """Give every case a runtime seed so that select! order is reproducible."""
+    out = []
+    for i, (cid, ops) in enumerate(cases):
+        out.append((cid, ops if ops and ops[0].startswith("SEED") else ["SEED %d" % (i % 97)] + ops))
+    return out
+
+
+def eng_data_random(mon, triggers, relevant=DATA_OPS, streams=False, nq=250, nt=6000, tag="data-random"):
+    def eng(ctx):
+        w = gen.merge(gen.W_DATA, {"CS": 1, "DS": 1, "DT": 1, "CT": 1}, gen.W_STREAM if streams else {})
+        cases = seeded(gen.random_cases(ctx.seed * 1000 + 7, ctx.n(nq, nt), w, "r", allow_streams=streams))
+        return ctx.seq(tag, cases, relevant=relevant, triggers=triggers, monitor=mon)
+    eng.__name__ = "eng_" + tag.replace("-", "_")
+    return eng
+
+
+def eng_data_enum(mon, triggers, relevant=DATA_OPS, dq=3, dt=4):
+    def eng(ctx):
+        cases = seeded(gen.data_plane_enum(ctx.n(dq, dt)))
+        out = ctx.seq("data-enum", cases, relevant=relevant, triggers=triggers, monitor=mon)
+        ctx.stats["streams"]["data-enum"]["exhaustive_depth"] = ctx.n(dq, dt)
+        return out
+    return eng
+
+
+def eng_control_random(mon, triggers, relevant=CTL_OPS | DATA_OPS, nq=250, nt=6000):
+    def eng(ctx):
+        w = gen.merge(gen.W_CONTROL, {"PUB": 3, "PULL": 3, "ACK": 1, "ADV": 1, "STATS": 2})
+        cases = seeded(gen.random_cases(ctx.seed * 1000 + 11, ctx.n(nq, nt), w, "c", n_ops=(10, 45)))
+        return ctx.seq("control-random", cases, relevant=relevant, triggers=triggers, monitor=mon)
+    return eng
+
+
+def eng_deadline_probes(mods, mon, tag):
+    def eng(ctx):
+        phases = list(range(0, 100, 7)) + [99] if not ctx.thorough else list(range(100))
+        cases = seeded(gen.deadline_probe_cases(phases, ackdls=(0, 11) if not ctx.thorough else (0, 10, 11, 15, 600),
+                                                mods=mods, prefix=tag))
+        return ctx.seq(tag, cases, relevant=DATA_OPS, triggers={"PULL"}, monitor=mon)
+    eng.__name__ = "eng_" + tag.replace("-", "_")
+    return eng
+
+
+def eng_deadline_pure(ctx):
+    """AckDeadline::new against round_deadline: every ms phase of the 100 ms grid, sub-ms and sub-us offsets."""
+    rng = random.Random(ctx.seed + 5)
+    ops = []
+    for ms in range(0, 300):
+        ops.append("DL %d" % (ms * gen.MS))
+    for ms in range(0, 100, 3 if not ctx.thorough else 1):
+        for off in (1, 499, 500, 999, 1000, 1001, 999999, 500000):
+            ops.append("DL %d" % (ms * gen.MS + off))
+            ops.append("DL %d" % (10 * gen.S + ms * gen.MS + off))
+    for _ in range(ctx.n(2000, 100000)):
+        ops.append("DL %d" % rng.randrange(0, 700 * gen.S))
+    for v in [-2147483648, -1, 0, 1, 9, 10, 11, 599, 600, 601, 2147483647] + [rng.randrange(-700, 700) for _ in range(200)]:
+        ops.append("DX %d" % v)
+    ops = list(dict.fromkeys(ops))
+
+    def mon(o, a):
+        for i, (op, r) in enumerate(zip(o, a)):
+            if op.startswith("DL "):
+                t = int(op[3:])
+                try:
+                    d = int(r.split(" ")[1])
+                except Exception:
+                    return i, "C04-noanswer: %s -> %s" % (op, r)
+                if d < t:
+                    return i, "C04-deadline-before-instant: AckDeadline::new(EPOCH+%d ns) = EPOCH+%d ns" % (t, d)
+                if d >= t + 100 * gen.MS + 1000:
+                    return i, "C04-deadline-too-late: AckDeadline::new(EPOCH+%d ns) = EPOCH+%d ns" % (t, d)
+        return None
+    PROPS[ctx.pid]["pure_monitor"] = mon
+    return ctx.pure("deadline-pure", ops, monitor=mon)
+
+
+def eng_paging_pure(ctx):
+    rng = random.Random(ctx.seed + 9)
+    ops = []
+    offs = [0, 1, 19, 20, 21, 999, 1000, 1001, 2 ** 32 - 1, 2 ** 32, 2 ** 63, 2 ** 64 - 1]
+    for o in offs + [rng.randrange(2 ** 64) for _ in range(ctx.n(300, 5000))]:
+        ops.append("PE %d" % o)
+        ops.append("PD " + hx(gen.token_of(o)))
+    for t in gen.BAD_TOKENS + ["", "AAAAAAAAAAA=", "AAAAAAAAAAE=", "AAAAAAAAAAI=", "/////////w==", "//////////8="]:
+        ops.append("PD " + hx(t))
+    alphabet = "AQgw/+=9"
+    for _ in range(ctx.n(1500, 30000)):
+        n = rng.choice([0, 4, 8, 11, 12, 12, 12, 13, 16])
+        s = "".join(rng.choice(alphabet) for _ in range(n))
+        if n == 12 and rng.random() < 0.5:
+            s = s[:11] + "="
+        ops.append("PD " + hx(s))
+    for size in [-2147483648, -1, 0, 1, 20, 1000, 1001, 2147483647]:
+        for tok in ["", gen.token_of(0), gen.token_of(7), "zz", "AAAAAAAAAAA"]:
+            ops.append("PG %d %s" % (size, hx(tok)))
+    for cnt in [0, 1, 5, 20, 21, 45]:
+        for size in [0, 1, 2, 19, 20, 21, 1000, 5000]:
+            for off in ["-", "0", "1", str(cnt - 1 if cnt else 0), str(cnt), str(cnt + 1), str(2 ** 64 - 1)]:
+                ops.append("PP %d %d %s" % (cnt, size, off))
+    ops = list(dict.fromkeys(ops))
+    return ctx.pure("paging-pure", ops)
+
+
+def eng_paging_walks(ctx):
+    counts = [0, 1, 2, 19, 20, 21, 41] if not ctx.thorough else list(range(0, 46)) + [60]
+    sizes = [-1, 0, 1, 7, 20, 21, 1000, 1001] if not ctx.thorough else [-1, 0, 1, 2, 3, 19, 20, 21, 44, 45, 46, 1000, 1001,
+                                                                          2147483647]
+    cases = seeded(gen.paging_walk_cases(counts, sizes, seed=ctx.seed))
+    return ctx.seq("paging-walks", cases, relevant={"LT", "LS", "LTS", "CT", "CS", "DT", "DS"},
+                   triggers={"LT", "LS", "LTS"}, monitor=M.mon_walk)
+
+
+def eng_capacity(ctx):
+    backlogs = [0, 1, 2, 999, 1000, 1001] if not ctx.thorough else [0, 1, 2, 999, 1000, 1001, 1500, 65535, 65536, 65541]
+    maxes = [1, 2, 1000, 1001, 65535, 65536, 65537, 131072, 2147483647]
+    if ctx.thorough:
+        maxes += [3, 999, 5000, 196608, 0, -1]
+    cases = seeded(gen.capacity_cases(backlogs, maxes))
+    out = ctx.seq("capacity", cases, relevant={"PULL", "STATS", "PUB", "PUBN"}, triggers={"PULL"}, monitor=M.mon_batch)
+    if out:
+        return out
+    smax = [0, 1, 2, 1000, 1001, 65535, 65536, -1, 2147483647]
+    cases = seeded(gen.stream_capacity_cases([0, 1, 5, 1001] if not ctx.thorough else [0, 1, 5, 1001, 2500], smax))
+    return ctx.seq("stream-capacity", cases, relevant={"SO", "SR", "STATS"}, triggers={"SR"}, monitor=M.mon_batch)
+
+
+def eng_malformed(ctx):
+    cases = gen.malformed_cases(ctx.seed, ctx.n(200, 5000))
+    return ctx.seq("malformed", cases, relevant=None, triggers={"GT", "GS", "PUB"}, monitor=M.mon_malformed)
+
+
+def eng_payload(ctx):
+    cases = seeded(gen.payload_cases(ctx.seed, ctx.n(120, 3000)))
+    return ctx.seq("payload", cases, relevant={"PUB", "PULL", "SR", "GS"}, triggers={"PULL"}, monitor=M.mon_payload)
+
+
+def eng_codec_pure(ctx):
+    rng = random.Random(ctx.seed + 3)
+    ops = []
+    for t in [0, 1, 2, 3, 4294967295, 65536]:
+        for c in [0, 1, 2, 4294967295, 4294967294, 65536]:
+            ops.append("MI %d %d" % (t, c))
+    for _ in range(ctx.n(500, 20000)):
+        ops.append("MI %d %d" % (rng.randrange(2 ** 32), rng.randrange(2 ** 32)))
+    for s in gen.BAD_ACK_IDS + gen.ODD_OK_ACK_IDS + ["7", "00", "+", "+-1", "18446744073709551615", "18446744073709551616",
+                                                       "1" * 25, "٣", "１"]:
+        ops.append("AI " + hx(s))
+    for _ in range(ctx.n(500, 20000)):
+        ops.append("AI " + hx("".join(rng.choice("0123456789+- x") for _ in range(rng.randrange(0, 22)))))
+    for s in ["", "http", "http://x", " https://a.b/c ", "ftp://x", "HTTP://x", "\thttp://t\n", "xhttp://"]:
+        ops.append("PC " + hx(s))
+    for s in ["projects/p", "projects/", "projects", "", "projects/p/q", "Projects/p"]:
+        ops.append("PJ " + hx(s))
+    ops = list(dict.fromkeys(ops))
+    return ctx.pure("codec-pure", ops)
+
+
+def reg(pid, engines, rule, monitor, title, design_ref, technique, level_text, level_note, assumptions=None, **kw):
+    prop(pid, theorems=THEOREMS[pid], engines=engines, rule=rule, monitor=monitor, assumptions=assumptions or [],
+         title=title, design_ref=design_ref, technique=technique, level_text=level_text, level_note=level_note, **kw)
+
+
+SEQ_NOTE = ("The theorems are about the Coq model; the model is tied to /repo on every run by executing the same case "
+            "files on the extracted model and on the real server (gRPC in-process, paused clock, fresh process per "
+            "case) and comparing every relevant result line. Schedules are those of one request at a time run to "
+            "quiescence; interleavings of concurrent requests are the business of the concurrent models.")
+
+reg("C02", [eng_data_enum(M.mon_ack_final, {"ACK"}), eng_data_random(M.mon_ack_final, {"ACK"}, streams=True, tag="data-stream-random")],
+    rule="data-enum: every sequence over {pub, pub2, pull1, pullN, ack-last, ack-first, ack-unknown, nack, modify, +5.1s, +10.1s} "
+         "up to the depth noted, STATS after every step, final drain; data-stream-random: random scripts with unary and "
+         "streaming acks. distinct = distinct op lists; non-trivial = contains an Acknowledge answered OK",
+    monitor=M.mon_ack_final, title="Acknowledgement is final and affects only that delivery", design_ref="7/C02",
+    technique="Coq: tracker invariant by induction over actor turns and over server histories, frame/inertness lemmas, "
+              "history theorem for finality; differential correspondence (exhaustive short sequences + random)",
+    level_text="Proved for every reachable state / every turn sequence of the model: tracker coherence (the safety condition "
+               "of unwrap_unchecked), ack frame, ack inertness, finality of an ack over all continuations, locality to one "
+               "subscription. " + SEQ_NOTE,
+    level_note="C02_final carries the hypothesis that later posts never reuse the message id (ids come from per-topic "
+               "counters: C09) and that the ids a subscription holds are distinct; both are preserved by the model's "
+               "steps (C03_partition_preserved) but not yet discharged as one closed server-level statement.")
+
+reg("C03", [eng_data_random(M.mon_exclusive, {"PULL"}, tag="data-random"),
+            eng_data_random(M.mon_exclusive, {"SR", "PULL"}, streams=True, tag="data-stream-random"),
+            eng_data_enum(M.mon_exclusive, {"PULL"})],
+    rule="random scripts with pulls of several sizes, nacks, expiry and streams on one subscription; exhaustive short "
+         "sequences. non-trivial = contains a Pull/stream response with at least one message",
+    monitor=M.mon_exclusive, title="A delivered message is exclusively leased until its deadline", design_ref="7/C03",
+    technique="Coq: fresh ack ids over all turn sequences, lease persistence, pull never hands out a leased message; "
+              "differential correspondence",
+    level_text="Proved for all turn sequences of one subscription actor (every consumer kind goes through these serialised "
+               "turns: C03_turns): strictly increasing ack ids, no leased message is handed out, a lease persists through "
+               "every turn that does not end it, no duplicate in a response. " + SEQ_NOTE,
+    level_note="Interleavings of several concurrent consumers are covered by the fact that the actor serialises turns "
+               "(model structure), validated on the real server only with one request in flight at a time.")
+
+reg("C04", [eng_deadline_pure, eng_deadline_probes((None,), M.mon_deadline, "deadline-probes"),
+            eng_data_random(M.mon_deadline, {"PULL"}, tag="data-random")],
+    rule="deadline-pure: AckDeadline::new on every ms phase, sub-ms and sub-us offsets and random instants; "
+         "deadline-probes: per hand-out phase and ack deadline, two coexisting leases probed 1 ms before, at and 1 ms "
+         "after each deadline. non-trivial = a delivery happened",
+    monitor=M.mon_deadline, title="Unacked deliveries are redelivered at the ack deadline, never earlier", design_ref="7/C04",
+    technique="Coq: arithmetic of the rounding (lia), expiry turn specification, timer/tick lemmas, quiescence lemma; "
+              "differential correspondence incl. probes around every deadline",
+    level_text="Proved: deadline = round(now + max(10,dl)) with t <= round t < t + 100 ms for every instant; a lease "
+               "survives every turn before its deadline; an expiry turn requeues exactly the overdue leases; the timer "
+               "has fired by the first 1 ms tick at/after the deadline and then nothing overdue stays leased. " + SEQ_NOTE,
+    level_note="Timer behaviour (1 ms ticks, firing order) is tokio's, assumed as modelled; validated by the probe stream.")
+
+reg("C05", [eng_deadline_pure, eng_deadline_probes((0, 1, 5, 30, 599, 600, 700, -1), M.mon_deadline, "modify-probes"),
+            eng_data_random(M.mon_deadline, {"MOD"}, streams=True, tag="data-stream-random"),
+            eng_data_enum(M.mon_deadline, {"MOD"})],
+    rule="DX: parse of every boundary i32 and random values; modify-probes: a lease modified with N in "
+         "{0,1,5,30,599,600,700,-1} three seconds after hand-out, probes around the new, the old and the neighbour's "
+         "deadline; random scripts with unary and streaming modifications mixing live, stale, unknown and malformed ids. "
+         "non-trivial = a ModifyAckDeadline answered OK",
+    monitor=M.mon_deadline, title="ModifyAckDeadline replaces the deadline; zero means nack", design_ref="7/C05",
+    technique="Coq: classification of N over all integers, single-modification specification, inertness, all-or-nothing "
+              "parsing; differential correspondence",
+    level_text="Proved: N classes for all integers; a modification of a live lease replaces its deadline by round(now+min(N,600)) "
+               "or requeues it at once (N=0), touching nothing else; unknown ids are ignored; one malformed id or negative N "
+               "rejects the whole request and changes nothing (unary and streaming). " + SEQ_NOTE,
+    level_note="As C04 for time.")
+
+reg("C09", [eng_codec_pure, eng_payload, eng_data_random(M.mon_payload, {"PULL"}, streams=True, tag="data-stream-random")],
+    rule="codec-pure: MessageId::new on boundary and random (tid, counter) pairs; payload: binary/empty/5 kB data, "
+         "non-ASCII and empty attribute keys, two subscriptions, nack and expiry redelivery, topic delete + re-create. "
+         "non-trivial = a delivery happened",
+    monitor=M.mon_payload, title="Messages are delivered intact with a stable, globally unique identity", design_ref="7/C09",
+    technique="Coq: records are moved never rebuilt (membership theorems), base64 round trip, injectivity of the id; "
+              "differential correspondence of every field of every delivery",
+    level_text="Proved: Publish stores one record per message with its data/attributes/publish token and consecutive ids; every "
+               "delivery over any history is one of the posted records; base64 round trip for all byte strings; the id map "
+               "is injective below 2^32 per topic and topic instance ids are never reused. " + SEQ_NOTE,
+    level_note="HTTP push payload fields are checked by the push engine (C14), not here; counters >= 2^32 are outside the guard.")
+
+reg("C10", [eng_control_random(None, {"CT", "CS"}), eng_names_echo],
+    rule="random control-plane scripts over 2 projects x 3 topics x 4 subscriptions with deletions, re-creations, "
+         "cross-project and malformed names, interleaved with data-plane calls. non-trivial = a successful create",
+    monitor=None, title="Topic and subscription namespaces behave as atomic maps", design_ref="7/C10",
+    technique="Coq: inductive control-plane invariant over all server histories, status/effect theorem per operation; "
+              "differential correspondence of status codes and bodies",
+    level_text="Proved for every reachable state: unique names and ids, creation order, exact attachment lists and registry; "
+               "per operation the exact status (in the server's check order) and effect, NOT_FOUND on absent names, no "
+               "effect on failure, read-back of stored attributes. " + SEQ_NOTE,
+    level_note="Linearizability under truly concurrent requests is argued from the single lock-protected step per "
+               "operation (DESIGN 7/C10) and not yet a Coq theorem.")
+
+reg("C11", [eng_control_random(None, {"DT", "DS"}), eng_data_random(None, {"DS", "DT"}, relevant=CTL_OPS | DATA_OPS, tag="data-random")],
+    rule="random scripts deleting and re-creating topics and subscriptions with publishes and pulls in between; "
+         "ListTopicSubscriptions / GetSubscription / STATS after deletions. non-trivial = a successful delete",
+    monitor=None, title="Deletion keeps topics and subscriptions consistent with each other", design_ref="7/C11",
+    technique="Coq: attachment invariant over all histories; differential correspondence",
+    level_text="Proved for every reachable state: a live topic lists exactly the live subscriptions created on that instance; "
+               "DeleteSubscription removes it from every list; DeleteTopic keeps the subscriptions, which then report the "
+               "sentinel; a re-created namesake is a new instance with no subscription. " + SEQ_NOTE,
+    level_note="Quiescent moments of concurrent histories: see C16.")
+
+reg("C13", [eng_paging_pure, eng_paging_walks, eng_control_random(M.mon_walk, {"LT", "LS", "LTS"})],
+    rule="paging-pure: token encode/decode on boundary and random offsets, random and near-miss token strings, "
+         "parse_paging and Paging on all boundary sizes; paging-walks: full token walks of the three List RPCs for the "
+         "counts and sizes noted, two projects, deletions before the walk, unissued and malformed tokens. "
+         "non-trivial = a List call answered OK",
+    monitor=M.mon_walk, title="Listing and pagination enumerate exactly the project's resources", design_ref="7/C13",
+    technique="Coq: page-walk completeness by induction for all lists and sizes, token round trip, listing = creation "
+              "order from the invariant; differential correspondence",
+    level_text="Proved: for every list and page size the token walk yields every element once in order with bounded pages; "
+               "every offset gives a valid page; tokens round-trip; rejects exactly negative sizes and undecodable tokens; the "
+               "three List RPCs page through exactly the project's/topic's live resources in creation order. " + SEQ_NOTE,
+    level_note="The base64 decoder model (strict canonical padding) is validated on random and near-miss strings.")
+
+reg("C15", [eng_capacity, eng_data_random(M.mon_batch, {"PULL"}, streams=True, tag="data-stream-random")],
+    rule="capacity: backlog sizes around 0/1/1000 (thorough: 65535/65536/65541) x max_messages around 1, 1000, 65535, "
+         "65536 multiples, i32::MAX; stream-capacity likewise for max_outstanding_messages. non-trivial = non-empty response",
+    monitor=M.mon_batch, title="Pull batches respect their size limit and are empty only when allowed", design_ref="7/C15",
+    technique="Coq: closed formula for the batch size with the 16-bit conversions, bounds by lia; differential correspondence",
+    level_text="Proved for all i32 limits and all backlog sizes: the batch size formula, the unary bound (also where the "
+               "16-bit conversion wraps), acceptance range and bound for streams, non-emptiness on a non-empty backlog. "
+               + SEQ_NOTE,
+    level_note="The rule about when a blocking Pull may answer empty is a statement about waiting (concurrent model), "
+               "not yet a Coq theorem; checked here only through return_immediately pulls.")
+
+reg("C17", [eng_malformed, eng_names_pure, eng_codec_pure],
+    rule="malformed: per case a valid setup, then 3-8 requests each with one malformed field (names, ack ids, tokens, "
+         "integers, push endpoints, inconsistent stream control messages with the bad element at a random position), STATS "
+         "after each, then a health round trip and all listings. non-trivial = the health probe succeeded",
+    monitor=M.mon_malformed, title="Malformed requests are rejected cleanly and change nothing", design_ref="7/C17",
+    technique="Coq: every error branch returns the unchanged state (case analysis of the whole handler), parse failure "
+              "lemmas; differential correspondence on a malformed-input stream",
+    level_text="Proved: no handler touches the state before answering with an error; after an error the server is in the state "
+               "it would be in without the request; malformed batch elements reject the batch; malformed stream control "
+               "messages change no resource. Totality holds by construction (the model is a total function). " + SEQ_NOTE,
+    level_note="Absence of panics in the Rust is checked by the harness (panic hook, hang detector), not proved.")
+
+reg("C01", [eng_data_random(M.mon_payload, {"PUB"}, streams=True, tag="data-stream-random"),
+            eng_control_random(M.mon_payload, {"PUB"}), eng_data_enum(M.mon_payload, {"PUB"})],
+    rule="random scripts with several subscriptions per topic, nack/expiry cycles, deletions and re-creations, final "
+         "drain in the enumerated stream. non-trivial = a Publish answered with ids",
+    monitor=M.mon_payload, title="Fan-out without loss", design_ref="7/C01",
+    technique="Coq: conservation of messages per subscription over all turn sequences, publish posts to exactly the "
+              "attached subscriptions (attachment invariant); differential correspondence",
+    level_text="Proved: a Publish appends the batch to exactly the subscriptions created on that topic instance and still "
+               "live; over any history a subscription holds everything posted to it except what an Ack of a live lease "
+               "removed; expiry requeues everything held; a pull on a non-empty queue delivers; nothing foreign is ever "
+               "delivered. " + SEQ_NOTE,
+    level_note="The concurrent reading (publish racing create/delete, mailbox FIFO) is not yet a Coq theorem.")
